@@ -98,6 +98,10 @@ func ReplayAll(c *core.Ctx, jobs []Job, t *Totals) {
 		}
 		d2 := j.run()
 		if d2 == nil || d2.Kind != d.Kind || d2.Inv != d.Inv || d2.StepNo != d.StepNo {
+			if dir := os.Getenv("VERIF_DEV_SCENARIOS"); dir != "" { // development aid: keep the job
+				b, _ := json.Marshal(map[string]any{"scenario": j.scenario()})
+				_ = os.WriteFile(filepath.Join(dir, fmt.Sprintf("nonrepro-%s-%d.json", j.Kind, i)), b, 0o644)
+			}
 			c.Broken("non-reproducible difference: first run %v, second run %v", d, d2)
 			return
 		}
@@ -173,6 +177,10 @@ func ReplayFile(c *core.Ctx, kind string) bool {
 	}
 	if err := json.Unmarshal(b, &rf); err != nil || rf.Scenario.Kind != "SessionCache-"+kind || rf.Scenario.Trace == nil {
 		c.Broken("replay file %s is not a SessionCache-%s scenario", c.Replay, kind)
+		return true
+	}
+	if err := rf.Scenario.Trace.Project(); err != nil {
+		c.Broken("replay file %s: %v", c.Replay, err)
 		return true
 	}
 	j := Job{Kind: kind, Sc: rf.Scenario.Trace}
